@@ -1,5 +1,5 @@
 # C09 -- implicit print is added exactly when no action is present.
-# All trees up to 3 (thorough 4) leaves over {true, false, name test, print, quit, fprint} and every operator
+# All trees up to 3 leaves (thorough: plus 6000 sampled trees of 4..6 leaves) over {true, false, name test, print, quit, fprint} and every operator
 # are compiled by the real code (scheme::compile from MIR), the emitted program is executed by Engine S on a
 # symbolic file record and compared (z3) with the meaning of  "( expr ) -a -print"  (no action in the tree)
 # resp. of expr itself (some action present).  Plus: an inductive step on compile's wrapping decision.
@@ -35,8 +35,21 @@ def gen_trees(T, leaves, max_leaves):
 def run(ctx, rep, tier):
     B = Bench(ctx, rep)
     T = Trees(B)
-    max_leaves = 2 if tier == "quick" else 3
+    max_leaves = 3
     trees = gen_trees(T, LEAVES, max_leaves)
+    if tier != "quick":
+        # sampled trees of 4..6 leaves with negations at random positions
+        import random
+        rnd = random.Random(rep.seed)
+
+        def rand_tree(n):
+            if n == 1:
+                t_ = T.leaf(rnd.choice(LEAVES))
+            else:
+                k = rnd.randint(1, n - 1)
+                t_ = T.op(rnd.choice(["And", "Or", "List"]), rand_tree(k), rand_tree(n - k))
+            return T.op("Not", t_) if rnd.random() < 0.2 else t_
+        trees += [rand_tree(rnd.randint(4, 6)) for _ in range(6000)]
     # directed deeper shapes (action under negation, on the right of OR, left of ',', in dead branches)
     t = T.leaf
     directed = [
@@ -51,7 +64,7 @@ def run(ctx, rep, tier):
     trees += directed
     samples, n = [], 0
     t0 = time.process_time()
-    budget = 240 if tier == "quick" else 3000
+    budget = 600 if tier == "quick" else 6000
     for tree, sx in trees:
         if time.process_time() - t0 > budget:
             rep.coverage["truncated_after"] = n
@@ -72,6 +85,7 @@ def run(ctx, rep, tier):
                "code (MIR) and the emitted program executed on a symbolic file; z3 proves truth value, outputs and stop request equal to "
                "the meaning of the expression with '-a -print' appended iff it contains no action" % (max_leaves, LEAVES),
                bounds=dict(max_leaves=max_leaves, leaves=LEAVES, trees=n), samples=samples,
+               sampled_larger_trees=(6000 if tier != "quick" else 0),
                outside="larger trees; other primaries (C02)", programs=n, evaluations=n, distinct_nontrivial=n)
     rep.coverage = cov
     rep.assumptions = ["runtime contract of DESIGN.md 2.3 (make-printer, call-with-relative-path, print-relative-path, lipe-scan-break)",
